@@ -322,9 +322,9 @@ func explore(r *ev.Run, scs []scenario, bound int, family string) {
 
 func bound(tier string) int {
 	if tier == "thorough" {
-		return 4
+		return 1000 // effectively unbounded: the whole schedule tree of every scenario
 	}
-	return 3
+	return 8
 }
 
 func doReplay(r *ev.Run, replay string) {
